@@ -13,9 +13,10 @@ TOKENIZER = r"""
     |(?P<WORD>[a-z]+)
 """
 SYNONYMS = {"X": "x", "YY": "y"}
-KEYWORDS = {("WORD", "zed"): "z"}
-LEXEME = {"x": "x", "y": "y", "z": "zed"}
+KEYWORDS = {("WORD", "zed"): "z", ("WORD", "wug"): "w"}
+LEXEME = {"x": "x", "y": "y", "z": "zed", "w": "wug"}
 TERMS = ["x", "y", "z"]
+TERMS4 = ["x", "y", "z", "w"]
 
 # families: role-named non-terminals S (start), A, B, C; '?k' = hole k; '-' = empty alternative
 FAMILIES: Dict[str, Tuple[str, List[str]]] = {
@@ -36,6 +37,8 @@ FAMILIES: Dict[str, Tuple[str, List[str]]] = {
     "ll1a": ("S: A B ?0 ; A: x A | - ; B: ?1 B | -", ["x", "y", "z"]),
     "ll1c": ("S: A B C z ; A: x | - ; B: ?0 | - ; C: ?1 C | ?2", ["x", "y", "z", "-"]),
     "ll1d": ("S: A ?0 | ?1 ; A: B C ; B: x B | - ; C: ?2 | -", ["x", "y", "z", "A"]),
+    "follow2": ("S: A B ?0 | ?1 B ?2 ; A: ?3 | - ; B: y | -", ["x", "y", "z", "w"]),
+    "follow3": ("S: A B C ?0 | w ; A: x | - ; B: ?1 | - ; C: ?2 | -", ["x", "y", "z", "w"]),
     "unreach": ("S: x ?0 ; A: ?1 A | B ; B: ?2 | -", ["x", "y", "A", "B"]),
 }
 
@@ -230,10 +233,15 @@ def recognises(g, start, toks: Tuple[str, ...]) -> bool:
     return (0, n) in D[start]
 
 
-def all_token_strings(maxlen: int):
+def all_token_strings(maxlen: int, terms=None):
     for n in range(maxlen + 1):
-        for t in itertools.product(TERMS, repeat=n):
+        for t in itertools.product(terms or TERMS, repeat=n):
             yield t
+
+
+def terms_of(g):
+    """3 terminals unless the grammar uses the 4th one"""
+    return TERMS4 if any("w" in alt for alts in g.values() for alt in alts) else TERMS
 
 
 def check_derivation(root, g, start, toks) -> Optional[str]:
@@ -261,7 +269,7 @@ def check_derivation(root, g, start, toks) -> Optional[str]:
                 if e:
                     return e
             return None
-        if node.name in TERMS:
+        if node.name in TERMS4:
             if not isinstance(node.value, str):
                 return f"leaf {node.name!r} has value {node.value!r}"
             leaves.append((node.name, node.value))
